@@ -30,6 +30,24 @@ JOBS += [
       restrict_fp=["myth_wsapi_runqueue_take.function_pointer_call.1/verif_decide"],
       fuc=["myth_wsapi_runqueue_take"], timeout=300, note="victim worker %d of 2" % v) for v in (0, 1)
 ]
+SCHED = "c02_sched.c"
+L_SCHED = {"myth_sched_loop": [dict(loop_id="0",
+    assigns="next_run, g_pending, g_pending_ever, g_resumed_ever, g_steals, ENVS[1].this_thread, ENVS[1].exit_flag, TH1.status, TH1.env, g_ctx_saved, g_switch_to, g_switch_count",
+    invariants="g_pending == 0 && ENVS[1].this_thread == 0 && g_me == 1",
+    symbol_map="next_run,myth_sched_loop::1::2::next_run")]}
+JOBS += [
+  Job("c02.sched_loop", SCHED, "h_sched_loop", loops=L_SCHED, loop_counts={"myth_sched_loop": 1},
+      replace=["verif_suspend_resume/sched_resume_contract", "myth_internal_barrier_wait/barrier_wait_contract"],
+      replace_calls=["myth_queue_pop:verif_pop"], restrict_fp=["myth_sched_loop.function_pointer_call.1/verif_steal"],
+      fuc=["myth_sched_loop"], timeout=300),
+  Job("c02.default_steal", SCHED, "h_default_steal", replace=["myth_random/random_contract"], replace_calls=["myth_queue_take:verif_take"],
+      fuc=["myth_default_steal_func", "myth_env_get_first_busy"], timeout=300),
+  Job("c02.yield", SCHED, "h_yield", replace=["verif_suspend_resume/yield_resume_contract", "myth_queue_put/put_contract",
+                                              "myth_ensure_init/ensure_init_contract", "myth_random/random_contract2"],
+      replace_calls=["myth_queue_pop:verif_pop"],
+      restrict_fp=["myth_yield_ex_body.function_pointer_call.%d/verif_steal" % k for k in (1, 2, 3, 4, 5)],
+      fuc=["myth_yield_ex_body", "myth_yield_ex_1"], timeout=300),
+]
 META = {
  "level": "proof",
  "level_text": "Sequential contracts on the real run-queue operations against the abstract view ptr[base..top): length change, position of the new/removed element, preservation of every other element (witness index) also across re-centring, well-formedness, lock protocol; capacity symbolic (64 in the quick tier, the real 131072 in the thorough tier).",
